@@ -5,6 +5,7 @@ CLASSES = {
   'MessageSink': dict(path='MessageSink', bases=[], fields={'_next': 'Channel?'}),
   'ClientMessageSink': dict(path='ClientMessageSink', bases=['MessageSink'], fields={'_on_faulted': 'Observable'}),
   'Observable': dict(extern=True, path=None, fields={'value': 'any'}, bases=[]),
+  'Callable0': dict(extern=True, path=None, fields={'g_calls': 'int'}, ghost=['g_calls'], bases=[]),
   'RefCountedSink': dict(path='RefCountedSink', bases=['ClientMessageSink'], fields={
     '_ref_count': 'int', '_open_ar': 'AsyncResult?', '_open_lock': 'any',
     # ghost: how often this wrapper opened / closed its underlying sink
@@ -12,9 +13,15 @@ CLASSES = {
   'SinkProviderBase': dict(path='SinkProviderBase', bases=[], fields={'next_provider': 'NextProvider', 'sink_properties': 'any'}),
   'SharedSinkProvider': dict(path='SharedSinkProvider', bases=['SinkProviderBase'], fields={
     '_key_selector': 'KeySelector', '_cache': 'dict[any,RefCountedSink]'}),
+  'ClientTimeoutSink': dict(path='ClientTimeoutSink', bases=['ClientMessageSink'], fields={}),
+  'FailingMessageSink': dict(path='FailingMessageSink', bases=['ClientMessageSink'], fields={'_ex': 'ExcFactory'}),
+  'ExcFactory': dict(extern=True, path=None, fields={}, bases=[]),
+  'TimeoutError': dict(file='scales/message.py', path='TimeoutError', bases=[], fields={}),
   'KeySelector': dict(extern=True, path=None, fields={}, bases=[]),
   'NextProvider': dict(extern=True, path=None, fields={}, bases=[]),
-  'SinkStack': dict(path='SinkStack', bases=[], fields={'_stack': 'deque[tuple[any,any]]', 'g_posted': 'int'}, ghost=['g_posted']),
+  'SinkStack': dict(path='SinkStack', bases=[], fields={'_stack': 'deque[tuple[AnySink,any]]'}),
+  # whatever sink sits on a call's stack (only its response entry point matters here)
+  'AnySink': dict(extern=True, path=None, bases=[], fields={'g_invoked': 'int'}, ghost=['g_invoked']),
   'ClientMessageSinkStack': dict(path='ClientMessageSinkStack', bases=['SinkStack'], fields={}),
   # a request/reply message: only its properties dictionary is visible to the sinks verified here
   'Message': dict(extern=True, path=None, fields={'properties': 'Props'}, bases=[]),
@@ -22,6 +29,7 @@ CLASSES = {
   'Props': dict(extern=True, path=None, bases=[], dictlike={
     '__Tag': ('tag', 'int?'), '__Deadline': ('deadline', 'real?'),
     '__Deadline_Event': ('event', 'Observable?'), '__Endpoint': ('endpoint', 'any')}),
+  'MethodReturnMessage': dict(extern=True, path=None, bases=['Message'], fields={'return_value': 'any', 'error': 'any', 'stack': 'any'}),
   'Deadline': dict(file='scales/message.py', path='Deadline', bases=[], fields={'_ts': 'int', '_timeout': 'int'}),
 }
 PREDICATES = {
@@ -85,43 +93,125 @@ FUNCTIONS = {
     props=['C16'],
   ),
   'SinkStack.Push': dict(
-    cls='SinkStack', params={'sink': 'any', 'context': 'any'},
-    requires=['sink is not None'],
-    ensures=['len(self._stack) == old(len(self._stack)) + 1',
+    cls='SinkStack', params={'sink': 'AnySink?', 'context': 'any'},
+    requires=[],
+    ensures=['sink is not None', 'len(self._stack) == old(len(self._stack)) + 1',
              'self._stack[len(self._stack) - 1][0] == sink', 'self._stack[len(self._stack) - 1][1] == context',
              'forall(k, 0, old(len(self._stack)), self._stack[k][0] == old(self._stack[k][0]) and self._stack[k][1] == old(self._stack[k][1]))'],
-    modifies=['deque[tuple[any,any]]'],
+    modifies=['deque[tuple[AnySink,any]]'],
+    raises={'Exception': dict(when='sink is None')},
     props=['C01', 'C04'],
   ),
 
-  # response delivery into a call's stack.  g_posted (ghost) counts the messages posted into the
-  # stack by its holders (transport, timer, pool, ...): 'exactly one message per request' is
-  # stated with it.  The popped sink continues the drain, so only lower bounds are known after.
+  # response delivery into a call's stack: pops at most one entry and invokes it exactly once;
+  # on an empty stack (a reply, fault or timer arriving after completion) nothing happens.
+  # The invoked sink normally continues the drain, so afterwards only "not longer" is known.
   'ClientMessageSinkStack.AsyncProcessResponse': dict(
     cls='ClientMessageSinkStack', params={'stream': 'any', 'msg': 'any'},
-    requires=[], ensures=['self.g_posted == old(self.g_posted) + 1',
-             'forall_ref(k, ClientMessageSinkStack, implies(k != self, k.g_posted == old(k.g_posted)), k.g_posted)'],
-    modifies=['SinkStack.g_posted', 'deque[tuple[any,any]]'], allocates=True, trusted=True,
-    notes='verified as a unit under C01 (pop at most one entry, invoke it once); callers in transports use this summary; '
-          'assumed not to re-enter the calling transport synchronously',
+    requires=[],
+    ensures=['implies(old(len(self._stack)) == 0, len(self._stack) == 0 and forall_ref(k, AnySink, k.g_invoked == old(k.g_invoked), k.g_invoked))',
+             'implies(old(len(self._stack)) > 0, len(self._stack) <= old(len(self._stack)) - 1)'],
+    modifies=['deque[tuple[AnySink,any]]', 'AnySink.g_invoked'], allocates=True,
+    ghost=[
+      {'after': 'next_sink, next_ctx = self.Pop()', 'do': [
+        'prove(len(self._stack) == old(len(self._stack)) - 1 and next_sink == old(self._stack[len(self._stack) - 1][0]) and next_ctx == old(self._stack[len(self._stack) - 1][1]), "pops-exactly-the-top-entry")',
+        'g_before = next_sink.g_invoked']},
+      {'after': 'next_sink.AsyncProcessResponse(self, next_ctx, stream, msg)', 'do': [
+        'prove(next_sink.g_invoked >= g_before + 1, "invokes-the-popped-sink")']},
+    ],
+    props=['C01'],
   ),
   'ClientMessageSinkStack.AsyncProcessResponseStream': dict(
     cls='ClientMessageSinkStack', params={'stream': 'any'},
-    requires=[], ensures=['self.g_posted == old(self.g_posted) + 1',
-             'forall_ref(k, ClientMessageSinkStack, implies(k != self, k.g_posted == old(k.g_posted)), k.g_posted)'],
-    modifies=['SinkStack.g_posted', 'deque[tuple[any,any]]'], allocates=True, trusted=True,
-    notes='see ClientMessageSinkStack.AsyncProcessResponse',
+    requires=[],
+    ensures=['implies(old(len(self._stack)) == 0, len(self._stack) == 0 and forall_ref(k, AnySink, k.g_invoked == old(k.g_invoked), k.g_invoked))',
+             'implies(old(len(self._stack)) > 0, len(self._stack) <= old(len(self._stack)) - 1)'],
+    modifies=['deque[tuple[AnySink,any]]', 'AnySink.g_invoked'], allocates=True,
+    props=['C01'],
   ),
   'ClientMessageSinkStack.AsyncProcessResponseMessage': dict(
     cls='ClientMessageSinkStack', params={'msg': 'any'},
-    requires=[], ensures=['self.g_posted == old(self.g_posted) + 1',
-             'forall_ref(k, ClientMessageSinkStack, implies(k != self, k.g_posted == old(k.g_posted)), k.g_posted)'],
-    modifies=['SinkStack.g_posted', 'deque[tuple[any,any]]'], allocates=True, trusted=True,
-    notes='see ClientMessageSinkStack.AsyncProcessResponse',
+    requires=[],
+    ensures=['implies(old(len(self._stack)) == 0, len(self._stack) == 0 and forall_ref(k, AnySink, k.g_invoked == old(k.g_invoked), k.g_invoked))',
+             'implies(old(len(self._stack)) > 0, len(self._stack) <= old(len(self._stack)) - 1)'],
+    modifies=['deque[tuple[AnySink,any]]', 'AnySink.g_invoked'], allocates=True,
+    props=['C01'],
   ),
+  # ---- timeout sink (C01 / C12)
+  'ClientTimeoutSink._TimeoutHelper': dict(
+    cls='ClientTimeoutSink', params={'evt': 'Observable?', 'sink_stack': 'ClientMessageSinkStack'},
+    requires=[], ensures=['implies(evt is not None, evt.value == True)'],
+    modifies=['Observable.value', 'deque[tuple[AnySink,any]]', 'AnySink.g_invoked', 'MethodReturnMessage.error',
+              'MethodReturnMessage.return_value', 'MethodReturnMessage.stack', '$cls'],
+    allocates=True,
+    ghost=[
+      {'before': 'sink_stack.AsyncProcessResponseMessage(error_msg)', 'do': [
+        # the timed-out flag is raised before the caller is handed TimeoutError
+        'prove(implies(evt is not None, evt.value == True), "event-set-before-posting")',
+        'prove(dyn_is(error_msg.error, TimeoutError), "posts-TimeoutError")',
+        'g_posts = 1']},
+      {'after': 'sink_stack.AsyncProcessResponseMessage(error_msg)', 'do': ['prove(g_posts == 1, "posts-exactly-one-message")']},
+    ],
+    props=['C01', 'C12'],
+  ),
+  'ClientTimeoutSink.AsyncProcessRequest': dict(
+    cls='ClientTimeoutSink',
+    params={'sink_stack': 'ClientMessageSinkStack', 'msg': 'Message', 'stream': 'any', 'headers': 'any'},
+    requires=['self._next is not None', 'allocated(msg.properties)'],
+    ensures=[],
+    modifies=['*'],
+    allocates='any',
+    ghost=[
+      # an already expired call is answered now and never forwarded (C12: not transmitted)
+      {'before': 'self._TimeoutHelper(None, sink_stack)', 'do': ['prove(deadline < now, "expired-only")', 'g_expired = True']},
+      {'before': 'cancel_timeout = GLOBAL_TIMER_QUEUE.Schedule(deadline, lambda: self._TimeoutHelper(evt, sink_stack))', 'do': [
+        'prove(deadline == msg.properties["__Deadline"] and deadline >= now, "timer-armed-at-the-message-deadline")',
+        'prove(("__Deadline_Event" in msg.properties) and msg.properties["__Deadline_Event"] == evt, "event-installed-before-forwarding")']},
+      {'after': 'sink_stack.Push(self, cancel_timeout)', 'do': [
+        'prove(sink_stack._stack[len(sink_stack._stack) - 1][0] == self and sink_stack._stack[len(sink_stack._stack) - 1][1] == cancel_timeout, "cancel-closure-pushed-with-the-sink")']},
+    ],
+    props=['C01', 'C12'],
+  ),
+  'ClientTimeoutSink.AsyncProcessResponse': dict(
+    cls='ClientTimeoutSink',
+    params={'sink_stack': 'ClientMessageSinkStack', 'context': 'Callable0', 'stream': 'any', 'msg': 'any'},
+    requires=[], ensures=['context.g_calls == old(context.g_calls) + 1'],
+    modifies=['Callable0.g_calls', 'deque[tuple[AnySink,any]]', 'AnySink.g_invoked', 'TimerEntry.cancelled', 'TimerEntry.action'],
+    allocates=True,
+    ghost=[{'before': 'sink_stack.AsyncProcessResponse(stream, msg)', 'do': ['g_fwd = 1', 'prove(context.g_calls == old(context.g_calls) + 1, "timer-cancelled-before-forwarding")']}],
+    props=['C01'],
+  ),
+  'FailingMessageSink.AsyncProcessRequest': dict(
+    cls='FailingMessageSink',
+    params={'sink_stack': 'ClientMessageSinkStack', 'msg': 'Message', 'stream': 'any', 'headers': 'any'},
+    requires=[], ensures=[],
+    modifies=['deque[tuple[AnySink,any]]', 'AnySink.g_invoked', 'MethodReturnMessage.error',
+              'MethodReturnMessage.return_value', 'MethodReturnMessage.stack', '$cls'],
+    allocates=True,
+    ghost=[{'before': 'sink_stack.AsyncProcessResponseMessage(msg)', 'do': ['prove(msg.error is not None, "answers-with-an-error")']}],
+    props=['C01', 'C03'],
+  ),
+  'SinkStack.Pop': dict(cls='SinkStack', inline=True),
+  'SinkStack.Any': dict(cls='SinkStack', inline=True),
 }
 
 EXTERNS = {
+  'MethodReturnMessage.__init__': dict(params=[('return_value', 'any'), ('error', 'any')], returns='MethodReturnMessage', fresh=True, allocates=True,
+                                       modifies=['MethodReturnMessage.error', 'MethodReturnMessage.return_value', 'MethodReturnMessage.stack'],
+                                       ensures=['result.error == error and result.return_value == return_value',
+                                                'forall_ref(m, MethodReturnMessage, implies(m != result, m.error == old(m.error) and m.return_value == old(m.return_value)), m.error)']),
+  'TimeoutError.__init__': dict(params=[], returns='TimeoutError', fresh=True, allocates=True),
+  'ExcFactory.__call__': dict(params=[], returns='any', ensures=['result is not None'], allocates=True),
+  'Callable0.__call__': dict(params=[], modifies=['Callable0.g_calls', 'TimerEntry.cancelled', 'TimerEntry.action'],
+                             ensures=['self.g_calls == old(self.g_calls) + 1'],
+                             notes='the context callable stored with a stack entry (timer cancel closure / balancer release closure)'),
+  # the response entry point of the popped sink: it runs once (g_invoked) and usually continues the
+  # drain of the same stack; it never pushes
+  'AnySink.AsyncProcessResponse': dict(
+    params=[('sink_stack', 'ClientMessageSinkStack'), ('context', 'any'), ('stream', 'any'), ('msg', 'any')],
+    modifies=['deque[tuple[AnySink,any]]', 'AnySink.g_invoked'], allocates=True,
+    ensures=['self.g_invoked >= old(self.g_invoked) + 1', 'len(sink_stack._stack) <= old(len(sink_stack._stack))'],
+    notes='assumed: a sink\'s AsyncProcessResponse does not raise and does not push onto the stack it is handed'),
   'KeySelector.__call__': dict(params=[('properties', 'any')], returns='any'),
   'NextProvider.CreateSink': dict(params=[('properties', 'any')], returns='Channel', fresh=True, allocates=True),
   'Observable.__init__': dict(params=[], returns='Observable', fresh=True, allocates=True),
